@@ -43,6 +43,7 @@ def setup(ctx):
     ctx.require("monitor", "l2_handshake_stalls", 20)
     ctx.require("monitor", "l2_request_stalls", 10)
     ctx.require("monitor", "l2_close_notify_stalls", 20)
+    ctx.require("monitor", "l2_unreadable_client_cert_stalls", 10)
     ctx.require("monitor", "complete_slow", 10)
     ctx.require("monitor", "complete_deliveries", 60)
     ctx.require("monitor", "l1_stalls_with_clock_steps", 60)
@@ -379,7 +380,11 @@ def l2_case(ctx, backend, tls_max, client_cert, stall_flight, stall_off, request
     loop = new_loop()
     try:
         h = SpyHandler({"mode": "sync", "outcome": "value", "status": 20, "meta": "text/gemini", "body": "ok\n"}, log, loop)
-        ident = certs.identity("c15-client", "ec") if client_cert else None
+        if isinstance(client_cert, str):
+            # a client certificate OpenSSL transmits and accepts but the X.509 parser refuses
+            ident = certs.identity("c15-client-" + client_cert, "ec", tamper=client_cert)
+        else:
+            ident = certs.identity("c15-client", "ec") if client_cert else None
         bench = tlsbench.Sandwich(loop, lambda: GeminiServerProtocol(h), backend=backend, log=log, client_identity=ident, tls_max=tls_max,
                                   peername=PEERNAMES[(len(backend) + (0 if tls_max is None else 1) + (1 if ident else 0)) % 3])
         flights = []
@@ -585,6 +590,36 @@ def run_l2(ctx):
                         ctx.case(("L2", backend, tls_max, client_cert, "close-notify", part is None, when, obs["tcp_closing"], obs["plain"][:2]), True, sample=wit)
 
 
+def run_l2_unreadable_client_cert(ctx):
+    """PyOpenSSL backend, a client certificate that completes the handshake but cannot be parsed afterwards, then
+    silence (or part of a request, or a whole one): however the server deals with such a peer, it does not keep
+    the connection for longer than the timeouts allow."""
+    from nauyaca.server import protocol as P
+
+    T = P.REQUEST_TIMEOUT
+    k = 0
+    for tamper in ("version", "bool"):
+        for tls_max in ("1.3", "1.2"):
+            for name, request in (("silent-after-handshake", None), ("partial-request", b"gemini://example.org/x"), ("complete-request", b"gemini://example.org/x\r\n"), ("partial-upload", b"titan://example.org/u;size=10\r\nabc")):
+                k += 1
+                if not ctx.mine(k):
+                    continue
+                obs = l2_case(ctx, "pyopenssl", tls_max, tamper, None, None, request=request)
+                if "error" in obs or "skip" in obs:
+                    ctx.undecided(f"L2:unreadable-client-cert:{obs.get('error') or obs.get('skip')}")
+                    continue
+                ctx.count("monitor", "l2_unreadable_client_cert_stalls")
+                wit = {"level": "L2", "backend": "pyopenssl", "tls": tls_max, "client_certificate": f"DER-tampered ({tamper}): OpenSSL accepts it, the X.509 parser refuses it", "then": name,
+                       "observed": {kk: obs[kk] for kk in ("tcp_closing", "tcp_close_time", "end", "plain", "handler", "loop_exceptions")}}
+                if not obs["tcp_closing"]:
+                    ctx.violation("held-open:phase=unreadable-client-certificate:backend=pyopenssl", "the loop became quiescent with the peer's TCP transport still open and no timer left to close it", wit)
+                elif obs["tcp_close_time"] > T + 30.0 + 60.0:
+                    ctx.violation("late-close:phase=unreadable-client-certificate:backend=pyopenssl", f"TCP closed only at {obs['tcp_close_time']}", wit)
+                else:
+                    ctx.count("outcome", f"L2:pyopenssl:unreadable-client-cert-closed@{obs['tcp_close_time']}")
+                ctx.case(("L2", "unreadable-client-cert", tamper, tls_max, name, obs["tcp_closing"], obs["plain"][:2]), True, sample=wit)
+
+
 def judge_l2(ctx, obs, backend, tls_max, client_cert, phase, f, o, T, expect_40):
     wit = {"level": "L2", "backend": backend, "tls": tls_max, "client_cert": client_cert, "phase": phase, "flight": f, "offset": o,
            "observed": {kk: obs[kk] for kk in ("flights", "tcp_closing", "tcp_close_time", "end", "plain", "client_eof", "handler", "version", "loop_exceptions")}}
@@ -693,5 +728,6 @@ def run(ctx):
     run_l1_clock_steps(ctx)
     run_l1_complete_deliveries(ctx)
     run_l2(ctx)
+    run_l2_unreadable_client_cert(ctx)
     if ctx.shard == 0:
         run_l3(ctx)
